@@ -43,7 +43,8 @@ def gen_cases(tier, seed):
     for i in range(n):
         cases.append(dict(
             kind="hist",
-            cls=["LAP", "PrioritizedReplayBuffer", "SubPER", "MultiLAP"][i % 4],
+            cls=["LAP", "PrioritizedReplayBuffer", "SubPER", "MultiLAP", "MultiPER",
+                 "MultiSubPER"][i % 6],
             N=int(rng.integers(1, 11)), n_ops=int(rng.integers(15, 60)),
             seed=int(rng.integers(1 << 30)),
         ))
@@ -144,9 +145,9 @@ def run_hist(case):
     rng = np.random.default_rng(case["seed"])
     N = case["N"]
     cls = case["cls"]
-    sub = cls == "SubPER"
-    multi = cls == "MultiLAP"
-    strat = cls == "PrioritizedReplayBuffer"
+    sub = cls in ("SubPER", "MultiSubPER")
+    multi = cls.startswith("Multi")
+    strat = cls in ("PrioritizedReplayBuffer", "MultiPER")
     H = 1
     if sub:
         H = int(rng.integers(1, 3))
@@ -425,6 +426,8 @@ def _sample_beta(sample, buf, t, us, where, res, multi):
     beta = sample.beta
 
     def with_beta(bs, g):
+        if multi:  # the wrapper takes the generator as keyword next to others
+            return orig(bs, rng=g, beta=beta)
         return orig(bs, g, beta)
 
     buf.sample_batch = with_beta
